@@ -85,7 +85,7 @@ def default_body(variant, n):
 
 
 def value_options(variant, n):
-    opts = [None, {'k': 'roles', 'r': ['x']}]
+    opts = [None, {'k': 'roles', 'r': ['x']}, {'k': 'any'}]
     if default_body(variant, n):
         opts.append(default_body(variant, n))
     if n == 'o':
@@ -103,6 +103,8 @@ def spell(body, rng, allow_list=True):
     embedded double quote)"""
     if body['k'] == 'alias':
         return rng.choice(['rule:' + body['n'], '(rule:%s)' % body['n']])
+    if body['k'] == 'any':
+        return rng.choice(['', '@', []]) if allow_list else rng.choice(['', '@'])
     leaves = ['role:' + r for r in body['r']]
     if not leaves:
         return '!'
@@ -162,7 +164,7 @@ def run_tool(tool, variant, main, dfile, rng):
     from oslo_policy import generator
     d = tempfile.mkdtemp(prefix='verif_tool_')
     c = {'tool': tool, 'main': [[n, b] for n, b in main.items() if b], 'dfile': [[n, b] for n, b in dfile.items() if b],
-         'before': {n: [] for n in NAMES}, 'after': {n: [] for n in NAMES}, 'crashed': 0, 'reported': []}
+         'before': {n: [] for n in NAMES}, 'after': {n: [] for n in NAMES}, 'crashed': 0, 'reported': [], 'roles': ROLES}
     try:
         fmt = 'json' if tool == 'convert' else rng.choice(['json', 'yaml'])
         mp = os.path.join(d, 'policy.' + fmt)
@@ -268,7 +270,7 @@ def run(ctx):
         ctx.traces += len(cases)
         for i in rejected:
             c = cases[i - 1]
-            shape = ','.join('%s=%s' % (nm, 'alias' if b['k'] == 'alias' else '+'.join(b['r'])) for nm, b in c['main'] + c['dfile'])
+            shape = ','.join('%s=%s' % (nm, b['k'] if b['k'] != 'roles' else '+'.join(b['r'])) for nm, b in c['main'] + c['dfile'])
             key = '%s:%s:%s' % (c['tool'], 'crashed' if c['crashed'] else 'decisions-changed', variant)
             ctx.violation(key, 'a policy-rewriting tool did not preserve the decisions of the policy it was given (or did not complete)',
                           {'tool': c['tool'], 'variant': variant, 'file_shape': shape, 'main_file': c.get('_main_text'), 'directory_file': c.get('_dfile_text'),
